@@ -303,6 +303,7 @@ class Body:
         self.impl_trait_ref = j.get("impl_trait_ref")
         self.trait_provided = j.get("trait_provided")
         self.promoted_of = j.get("promoted_of")
+        self.spec_of = j.get("spec_of")
         self.locals = j["locals"]
         self.blocks = [Block(b) for b in j["blocks"]]
         self.debug = {}
@@ -515,7 +516,182 @@ class Program:
         self.adts = {a["path"]: a for a in j["adts"]}
         self._cg = None
         self._closure_sites = None
+        self._raw = {bj["id"]: bj for bj in j["bodies"]}
+        self.superseded = set()
+        self._specialise_fn_pointer_helpers()
         self._fold_named_float_consts()
+
+    # ---------------------------------------------------------------- context sensitivity by cloning
+    def _specialise_fn_pointer_helpers(self):
+        """A private helper that CALLS one of its parameters (`fn annotate(&mut self, link: fn(&mut Self, ..) -> .., ..)`) has indirect calls no
+        rule can look through.  Where a call site hands it function items (or non-capturing closures coerced to fn pointers), the helper is
+        cloned for that site with the indirect calls replaced by direct calls of those functions, and the site is retargeted to the clone
+        (`<helper>@<caller>#<bb>`).  This is call-site cloning over the resolved MIR - nothing is executed; on a tree without such helpers (the
+        reviewed tree has none) it does nothing.  A helper all of whose call sites were retargeted leaves the production set."""
+        import copy
+        samples = {}
+        for b in self.bodies.values():
+            for _, t in b.calls():
+                if t.callee.res and not t.callee.indirect and t.callee.res not in samples:
+                    samples[t.callee.res] = t.callee.raw
+
+        def param_of(body, place):
+            if place is None or place.proj:
+                return None
+            l, seen = place.local, set()
+            while l not in seen:
+                seen.add(l)
+                if 1 <= l <= body.nargs:
+                    # never reassigned
+                    if any(st.k == "assign" and st.place.is_local() and st.place.local == l for _, st in body.stmts()):
+                        return None
+                    return l
+                ds = [st for _, st in body.stmts() if st.k == "assign" and st.place.is_local() and st.place.local == l]
+                if len(ds) != 1 or ds[0].rv is None:
+                    return None
+                rv = ds[0].rv
+                if rv["k"] == "use" and rv["op"].place is not None and not rv["op"].place.proj:
+                    l = rv["op"].place.local
+                elif rv["k"] == "ref" and not [e for e in rv["place"].fields() if e != "*"]:
+                    l = rv["place"].local
+                else:
+                    return None
+            return None
+
+        def fn_value(body, op, depth=0):
+            """(target body id, is_closure) of an operand that is a function item / a capture-free closure, possibly coerced to a fn pointer"""
+            if op.kind == "const":
+                for v in (op.const.get("res"), op.const.get("fn")):
+                    if v in self.bodies:
+                        return (v, False)
+                return None
+            if op.place is None or depth > 6:
+                return None
+            if op.place.proj:
+                # `let (id, terms) = (Gene::id, Gene::hpo_terms);` - component i of a tuple aggregate
+                es = [e for e in op.place.fields() if e != "*"]
+                if len(es) == 1 and es[0][0] == "f" and str(es[0][1]).isdigit():
+                    ds0 = [st for _, st in body.stmts() if st.k == "assign" and st.place.is_local() and st.place.local == op.place.local]
+                    if len(ds0) == 1 and ds0[0].rv is not None and ds0[0].rv["k"] == "agg" and ds0[0].rv.get("agg") == "tuple" and int(es[0][1]) < len(ds0[0].rv["ops"]):
+                        return fn_value(body, ds0[0].rv["ops"][int(es[0][1])], depth + 1)
+                return None
+            l = op.place.local
+            ds = [st for _, st in body.stmts() if st.k == "assign" and st.place.is_local() and st.place.local == l]
+            if len(ds) != 1 or ds[0].rv is None:
+                return None
+            rv = ds[0].rv
+            if rv["k"] in ("use", "cast"):
+                return fn_value(body, rv["op"], depth + 1)
+            if rv["k"] == "agg" and rv.get("agg") == "closure" and not rv.get("ops") and rv.get("closure") in self.bodies:
+                return (rv["closure"], True)
+            return None
+
+        for _round in range(2):
+            changed = False
+            for hid in list(self.order):
+                H = self.bodies.get(hid)
+                if H is None or H.kind not in ("Fn", "AssocFn") or H.test or H.exported or H.reachable or hid not in self._raw:
+                    continue
+                used = {}
+                generic_params = set()
+                for bi, t in H.calls():
+                    if t.callee.indirect and t.callee.indirect_op is not None:
+                        p_ = param_of(H, t.callee.indirect_op.place)
+                        if p_:
+                            used.setdefault(p_, []).append(bi)
+                    elif t.callee.trait in ("std::ops::Fn", "std::ops::FnMut", "std::ops::FnOnce") and t.callee.res is None and len(t.args) == 2 and t.args[0].place is not None:
+                        # `f(a, b)` for a parameter `f: impl Fn(A, B)`:  <F as Fn<(A, B)>>::call(&f, (a, b))
+                        p_ = param_of(H, t.args[0].place)
+                        if p_:
+                            used.setdefault(p_, []).append(bi)
+                            generic_params.add(p_)
+                if not used or not (set(used) - generic_params):
+                    # (helpers whose only function-typed parameters are generic `impl Fn`s - the reviewed tree has three - stay as they are: the rules
+                    # and the provenance engine read them through their Fn::call sites)
+                    continue
+                sites, missed = [], 0
+                for caller in list(self.bodies.values()):
+                    for bi, t in caller.calls():
+                        if t.callee.res != hid:
+                            continue
+                        tg = {}
+                        for p_ in used:
+                            v = fn_value(caller, t.args[p_ - 1]) if p_ - 1 < len(t.args) else None
+                            if v is None:
+                                break
+                            if v[1] and p_ in generic_params:
+                                # a closure handed to a generic `impl Fn` parameter: the provenance engine binds closure parameters through the
+                                # helper's Fn::call sites already (Prov._bind_through_local_consumer); cloning is for what it cannot follow
+                                v = None
+                                break
+                            tg[p_] = v
+                        else:
+                            sites.append((caller, bi, t, tg))
+                            continue
+                        missed += 1
+                for caller, bi, t, tg in sites:
+                    tag = "@%s#%d" % (re.sub(r"^.*::", "", caller.id if caller.kind != "Closure" else caller.id.rsplit("::", 2)[-2] + "::" + caller.id.rsplit("::", 1)[-1]), bi)
+                    nid = hid + tag
+                    if nid in self.bodies:
+                        continue
+                    fam = [hid] + [c.id for c in self.bodies.values() if c.kind == "Closure" and c.root == hid and c.id in self._raw]
+                    for oid in fam:
+                        cj = copy.deepcopy(self._raw[oid])
+                        if oid == hid:
+                            tuple_defs = {}
+                            for blk in cj["blocks"]:
+                                for sj in blk["stmts"]:
+                                    if sj.get("k") == "assign" and not sj["place"]["p"] and sj.get("rv", {}).get("k") == "agg" and sj["rv"].get("agg") == "tuple":
+                                        tuple_defs.setdefault(sj["place"]["l"], []).append(sj["rv"]["ops"])
+                            for blk in cj["blocks"]:
+                                tj = blk["term"]
+                                if tj["k"] == "call" and tj["func"].get("trait") in ("std::ops::Fn", "std::ops::FnMut", "std::ops::FnOnce") and tj["func"].get("res") is None and len(tj["args"]) == 2:
+                                    a0 = tj["args"][0].get("move") or tj["args"][0].get("copy")
+                                    a1 = tj["args"][1].get("move") or tj["args"][1].get("copy")
+                                    p_ = param_of(H, Place(a0)) if a0 else None
+                                    if p_ in tg and a1 and not a1["p"] and len(tuple_defs.get(a1["l"], [])) == 1:
+                                        target, is_closure = tg[p_]
+                                        fj = copy.deepcopy(samples.get(target)) if target in samples else {"def": target, "def_args": target, "local": True, "gargs": [], "res": target, "res_args": target, "res_local": True}
+                                        fj["via_fn_param"] = p_
+                                        tj["func"] = fj
+                                        tj["args"] = ([tj["args"][0]] if is_closure else []) + copy.deepcopy(tuple_defs[a1["l"]][0])
+                                    continue
+                                if tj["k"] != "call" or "indirect" not in tj["func"]:
+                                    continue
+                                p_ = param_of(H, Place(tj["func"]["indirect"].get("move") or tj["func"]["indirect"].get("copy"))) if ("move" in tj["func"]["indirect"] or "copy" in tj["func"]["indirect"]) else None
+                                if p_ not in tg:
+                                    continue
+                                target, is_closure = tg[p_]
+                                fj = copy.deepcopy(samples.get(target)) if target in samples else {"def": target, "def_args": target, "local": True, "gargs": [], "res": target, "res_args": target, "res_local": True}
+                                fj["via_fn_pointer"] = p_
+                                tj["func"] = fj
+                                if is_closure:
+                                    tj["args"] = [{"const": {"ty": "()", "val": "()"}}] + tj["args"]
+                        txt = json.dumps(cj).replace(json.dumps(hid + "::{closure")[1:-1], json.dumps(nid + "::{closure")[1:-1])
+                        cj = json.loads(txt)
+                        cj["id"] = nid if oid == hid else oid.replace(hid, nid, 1)
+                        if oid != hid:
+                            if cj.get("root") == hid:
+                                cj["root"] = nid
+                            if cj.get("parent") == hid:
+                                cj["parent"] = nid
+                        cj["spec_of"] = oid
+                        nb = Body(cj, self)
+                        nb.spec_of = oid
+                        self.bodies[nb.id] = nb
+                        self.order.append(nb.id)
+                        self._raw[nb.id] = cj
+                    t.callee.res = nid
+                    t.callee.raw["res"] = nid
+                    changed = True
+                if sites and not missed:
+                    self.superseded.add(hid)
+                    for c in self.bodies.values():
+                        if c.kind == "Closure" and c.root == hid:
+                            self.superseded.add(c.id)
+            if not changed:
+                break
+        self._cg = None
 
     def _fold_named_float_consts(self):
         """`const EMPTY: f32 = 0.0;` used as an operand reads like the literal it names (integer constants are evaluated by the driver)"""
@@ -552,7 +728,7 @@ class Program:
         return r[0] if len(r) == 1 else None
 
     def production(self):
-        return [b for b in self.bodies.values() if not b.test]
+        return [b for b in self.bodies.values() if not b.test and b.id not in self.superseded]
 
     def closures_of(self, body_id):
         """closure bodies nested (transitively) in body_id"""
